@@ -658,6 +658,8 @@ func ParseNum(lit string) (float64, bool) {
 func (rf *Ref) eval(e Expr) (V, *ZErr) {
 	rf.tick()
 	switch v := e.(type) {
+	case Group:
+		return rf.eval(v.E)
 	case Num:
 		f, ok := ParseNum(v.Lit)
 		if !ok {
